@@ -410,3 +410,61 @@ def bootstrap_names(func):
                 call_name(x.value.value) == "connect" and call_recv(x.value.value) == ep:
             proto = unparse(x.targets[0])
     return ep, proto
+
+
+def reports_unless_stop_induced(ctx, r, h, sink_pred, label):
+    """The handler must reach its reporting sink for every failure that stop() did not cause: evaluate the guards
+    for (stopping, cancelled) in {(F,T),(F,F),(T,F)}; only (T,T) may be swallowed."""
+    from .c17 import _eval  # three-valued evaluator of check()/flag tests
+    cf = ctx.cfg(h)
+    p = h.first_param()
+    anc = {"CancelledError": {"CancelledError", "Exception"}, "RuntimeError": {"RuntimeError", "Exception"}}
+    for stopping, cancelled in ((False, True), (False, False), (True, False)):
+        case_cls = "CancelledError" if cancelled else "RuntimeError"
+        dead = set()
+        for n in cf.nodes:
+            if n.kind == "test":
+                v = _eval_flag(n.stmt.test, p, case_cls, anc, stopping)
+                if v is not None:
+                    for t, lab in cf.succ[n.id]:
+                        if lab and lab[0] == "cond" and lab[2] != v:
+                            dead.add((n.id, t))
+        sinks = {n.id for n in cf.nodes if any(sink_pred(c) for c in n.calls())}
+        seen, stack, hit = set(), [cf.entry.id], False
+        while stack:
+            x = stack.pop()
+            if x in seen:
+                continue
+            seen.add(x)
+            if x in sinks:
+                hit = True
+                break
+            for t, lab in cf.succ[x]:
+                if (x, t) not in dead and lab != ("exc",):
+                    stack.append(t)
+        r.check(hit, "%s#reports[stopping=%s,cancelled=%s]" % (h.qname, stopping, cancelled),
+                "%s: a failure with stopping=%s, CancelledError=%s never reaches the report" % (label, stopping, cancelled), where(h, h.node),
+                "a CancelledError not caused by stop() (e.g. the application's own timeout on the processor's Deferred) is swallowed: the "
+                "feeder goes on to the next block and progress passes the failed one")
+
+
+def _eval_flag(test, p, case_cls, anc, stopping):
+    import ast as _ast
+    if isinstance(test, _ast.UnaryOp) and isinstance(test.op, _ast.Not):
+        v = _eval_flag(test.operand, p, case_cls, anc, stopping)
+        return None if v is None else (not v)
+    if isinstance(test, _ast.BoolOp):
+        vals = [_eval_flag(v, p, case_cls, anc, stopping) for v in test.values]
+        if isinstance(test.op, _ast.And):
+            if any(v is False for v in vals):
+                return False
+            return True if all(v is True for v in vals) else None
+        if any(v is True for v in vals):
+            return True
+        return False if all(v is False for v in vals) else None
+    if isinstance(test, _ast.Call) and call_name(test) == "check" and call_recv(test) == p:
+        up = anc.get(case_cls, {case_cls})
+        return any(unparse(a).split(".")[-1] in up for a in test.args)
+    if norm(test) == "self._stopping":
+        return stopping
+    return None
